@@ -437,7 +437,7 @@ HasConn(x, q) == x.holds[q] # "none" /\ x.pc[q] \in {"AwaitHeaders", "BodyRead"}
 
 \* the victim's peer answers once the request was written - or, EarlyResponse, while the upload is
 \* still blocked in drain() (early response)
-Sent(x) == x.written["v"] \/ (EarlyResponse /\ x.pc["w"] = "drain")
+Sent(x) == x.written["v"] \/ (EarlyResponse /\ x.pc["w"] = "drain" /\ x.fut["w"] = "pending")
 
 CanDeliver(x, q, part) ==
     /\ HasConn(x, q)
@@ -520,7 +520,9 @@ Deliver(q, part) ==           \* ResponseHandler.data_received
     /\ LET x == DataArrived(s, q) IN
        s' = CASE part = "partial" -> [x EXCEPT !.nPartial = @ + 1]
               [] part = "qpart" -> [x EXCEPT !.nPartial = @ + 1]
-              [] part = "cont" -> WakeReader([x EXCEPT !.contSent = TRUE, !.mq[q] = Append(@, "cont")], q, "AwaitHeaders")
+              [] part = "cont" ->    \* an interim response has the empty payload: the timer is dropped again
+                   WakeReader([DropRead(x, q) EXCEPT !.contSent = TRUE, !.anyData = s.anyData,
+                                                     !.mq[q] = Append(@, "cont")], q, "AwaitHeaders")
               [] part = "head" -> WakeReader([x EXCEPT !.rsp[q] = "head", !.mq[q] = Append(@, "head")], q, "AwaitHeaders")
               [] part = "data" ->
                    LET x1 == [x EXCEPT !.dataSent = TRUE, !.buf[q] = TRUE] IN
